@@ -93,7 +93,7 @@ func c12Render(c c12Case) (c12Outcome, error) {
 }
 
 func encDepthClass(s *gen.MsgSpec) string {
-	multi := len(s.Parts)+len(s.Embeds)+len(s.Attach) > 1 || s.SMIME != ""
+	multi := len(s.Parts)+len(s.Embeds)+len(s.Attach) > 1 || s.SMIME != "" || s.PGP != ""
 	d := "depth0"
 	if multi {
 		d = "multipart"
@@ -246,6 +246,15 @@ func c12Shapes(r *ev.Run) []gen.MsgSpec {
 		}
 		add(s, rng)
 	}
+	// messages declared PGP/MIME (the container is opened by the writer, the parts come from the caller)
+	for i, k := range []string{"encrypt", "signature"} {
+		for j, sh := range [][3]int{{1, 0, 0}, {2, 0, 0}, {1, 0, 1}, {1, 1, 1}} {
+			rng := r.Rng("c12pgp", i*10+j)
+			s := genSpec(rng, fmt.Sprintf("c12-pgp-%s-%d", k, j), encs[(i+j)%len(encs)], sh[0], sh[1], sh[2])
+			s.PGP = k
+			add(s, rng)
+		}
+	}
 	// random extra shapes
 	extra := r.Pick(6, 300)
 	for i := 0; i < extra; i++ {
@@ -275,7 +284,7 @@ func producers(s *gen.MsgSpec) []string {
 
 func runC12(r *ev.Run, rep *ev.ReplayDoc) ev.Summary {
 	sum := ev.Summary{
-		Rule: "for every shape (enumerated parts x embeds x attachments x message encoding incl. 7bit, S/MIME shapes, random shapes): a fault-free render, then EVERY k in [0, len(output)) with a sink that accepts exactly k bytes and fails afterwards, short-write sinks at sampled k, a destination that refuses exactly one write at every k and accepts everything after it (on a fresh message and on one that has been rendered before), every producer failing before/inside/after its data, caller-supplied ReadSeekers that fail in Read or cannot be rewound after delivering their data, fs.FS sources that refuse Open at render time, and producer+sink fault pairs; multipart shapes also with caller-defined boundaries that mime/multipart refuses (only no-panic and the exact count are judged there). non-trivial = a fault was injected; distinct by (shape, fault)",
+		Rule: "for every shape (enumerated parts x embeds x attachments x message encoding incl. 7bit, S/MIME shapes, PGP/MIME-declared shapes, random shapes): a fault-free render, then EVERY k in [0, len(output)) with a sink that accepts exactly k bytes and fails afterwards, short-write sinks at sampled k, a destination that refuses exactly one write at every k and accepts everything after it (on a fresh message and on one that has been rendered before), every producer failing before/inside/after its data, caller-supplied ReadSeekers that fail in Read or cannot be rewound after delivering their data, fs.FS sources that refuse Open at render time, and producer+sink fault pairs; multipart shapes also with caller-defined boundaries that mime/multipart refuses (only no-panic and the exact count are judged there). non-trivial = a fault was injected; distinct by (shape, fault)",
 		Assumptions: []string{
 			"a sink fault is persistent (every write after the first refused one fails too) except in the transient-sink group, where only the write crossing k is refused",
 			"the message is rebuilt for every fault so that a failed render cannot influence the next case (repeatability after a failed render is C11)",
